@@ -22,7 +22,7 @@ let parse_sx (s : ostring) : sx =
     end in
   one ()
 
-let ty_of = function "int" -> TInt | "bool" -> TBool | "void" -> TVoid | "str" -> TStr | t -> failwith ("ty " ^ t)
+let ty_of = function "int" -> TInt | "bool" -> TBool | "void" -> TVoid | "str" -> TStr | "arr" -> TArr | t -> failwith ("ty " ^ t)
 let binop_of : ostring -> binop = function
   | "add" -> BAdd | "sub" -> BSub | "mul" -> BMul | "div" -> BDiv | "mod" -> BMod | "eq" -> BEq | "ne" -> BNe
   | "lt" -> BLt | "le" -> BLe | "gt" -> BGt | "ge" -> BGe | "and" -> BAnd | "or" -> BOr | o -> failwith ("binop " ^ o)
@@ -37,6 +37,9 @@ let rec expr_of (x : sx) : expr =
   | L [A "bin"; A o; a; b] -> EBin (binop_of o, expr_of a, expr_of b)
   | L (A "call" :: A f :: args) -> ECall (n_of_hex f, List.map expr_of args)
   | L [A "cond"; c; a; b] -> ECond (expr_of c, expr_of a, expr_of b)
+  | L (A "arr" :: es) -> EArr (List.map expr_of es)
+  | L [A "at"; a; i] -> EAt (expr_of a, expr_of i)
+  | L [A "len"; a] -> ELen (expr_of a)
   | _ -> failwith "expr"
 let rec stmt_of (x : sx) : stmt =
   match x with
@@ -67,7 +70,7 @@ let prog_of (x : sx) : program =
         pmain = n_of_hex m }
   | _ -> failwith "prog"
 
-let fault_name = function FAssert -> "assert" | FDivZero -> "divzero" | FDivOverflow -> "divoverflow"
+let fault_name = function FAssert -> "assert" | FDivZero -> "divzero" | FDivOverflow -> "divoverflow" | FOob -> "oob"
 let show_outcome = function
   | Done (out, ex) -> "done " ^ hex_of_z ex ^ " " ^ hex_of_bytes out
   | Faulted (f, out) -> "fault " ^ fault_name f ^ " " ^ hex_of_bytes out
@@ -87,6 +90,7 @@ let show_vm = function
 let show_nat = function
   | NDone (out, ex) -> "done " ^ hex_of_z ex ^ " " ^ hex_of_bytes out
   | NFaulted (NFAssert, out) -> "fault assert " ^ hex_of_bytes out
+  | NFaulted (NFOob, out) -> "abort oob " ^ hex_of_bytes out
   | NFaulted (_, out) -> "signal fpe " ^ hex_of_bytes out
   | NStuckO -> "stuck"
   | NCcFailO -> "ccfail"
